@@ -77,20 +77,22 @@ def make_main(prog):
             if gap:
                 tm.sleep(gap)
             for r in recs[i : i + n]:
-                kind, cookie, isdir, idx = r
+                kind, cookie, isdir, idx = r[:4]
+                name_idx = r[4] if len(r) > 4 else idx  # a record may repeat an earlier record's name: the same change twice
                 mask = {"FROM": sk.IN_MOVED_FROM, "TO": sk.IN_MOVED_TO, "CREATE": sk.IN_CREATE, "DELETE": sk.IN_DELETE, "MODIFY": sk.IN_MODIFY, "IGNORED": sk.IN_IGNORED,
                         "SELFROOT": sk.IN_ATTRIB | sk.IN_ISDIR, "SELFSUB": sk.IN_ATTRIB | sk.IN_ISDIR}[kind]
                 if kind == "IGNORED":
-                    k.inject(fd, wd_sub, mask, 0, b"")
+                    queued = k.inject(fd, wd_sub, mask, 0, b"")
                 elif kind in ("SELFROOT", "SELFSUB"):
                     # a nameless record: the event concerns the watched directory itself
-                    k.inject(fd, wd_root if kind == "SELFROOT" else wd_sub, mask, 0, b"")
+                    queued = k.inject(fd, wd_root if kind == "SELFROOT" else wd_sub, mask, 0, b"")
                 else:
                     # directories are never really created in the virtual tree: keep IN_CREATE|IN_ISDIR away (it triggers a walk)
                     if isdir and kind != "CREATE":
                         mask |= sk.IN_ISDIR
-                    k.inject(fd, wd_root, mask, cookie, b"e%d" % idx)
-                s.record("inject", (idx, now()))
+                    queued = k.inject(fd, wd_root, mask, cookie, b"e%d" % name_idx)
+                # the kernel itself merges a record identical to the newest unread one: such a record is never read
+                s.record("inject" if queued else "merged-by-kernel", (idx, now()))
             i += n
         if prog.get("early_close") is not None:
             tm.sleep(prog["early_close"])
@@ -110,12 +112,23 @@ def check(prog, r, s):
     v = harness.basic_verdict(r)
     if v:
         raise Violation(f"{v[1]} (program {prog})", v[0])
+    merged = {p[0] for seq, tid, tag, p in s.log if tag == "merged-by-kernel"}
+    prog = dict(prog, records=[r_ for r_ in prog["records"] if r_[3] not in merged])
     recs = {}
-    for kind, cookie, isdir, idx in prog["records"]:
+    pending_by_name = {}  # records that carry the same name are told apart by their order
+    for r_ in prog["records"]:
+        kind, cookie, isdir, idx = r_[:4]
         if kind == "IGNORED":
             continue
-        key = {"SELFROOT": b"@" + ROOT, "SELFSUB": b"@" + ROOT + b"/sub"}.get(kind, f"e{idx}".encode())
+        key = {"SELFROOT": b"@" + ROOT, "SELFSUB": b"@" + ROOT + b"/sub"}.get(kind, f"e{r_[4] if len(r_) > 4 else idx}".encode())
         recs[key] = (kind, cookie, isdir, idx)
+        pending_by_name.setdefault(key, []).append((kind, cookie, isdir, idx))
+
+    def take(name):
+        lst = pending_by_name.get(name)
+        if not lst:
+            raise Violation(f"record {name!r} was delivered more often than the kernel queued it (program {prog})", "duplicate")
+        return lst.pop(0)
     inj_t = {}
     delivered = []  # ("single", idx, t) | ("pair", fidx, tidx, t)
     ended = False
@@ -125,18 +138,18 @@ def check(prog, r, s):
         elif tag == "single":
             if p[0] not in recs:
                 raise Violation(f"an event that was never queued by the kernel was delivered: {p[0]!r} (program {prog})", "invented")
-            delivered.append(("single", recs[p[0]][3], p[1]))
+            delivered.append(("single", take(p[0])[3], p[1]))
         elif tag == "pair":
             if p[0] not in recs or p[1] not in recs:
                 raise Violation(f"pair with unknown halves {p} (program {prog})", "invented")
-            delivered.append(("pair", recs[p[0]][3], recs[p[1]][3], p[2]))
+            delivered.append(("pair", take(p[0])[3], take(p[1])[3], p[2]))
         elif tag == "end":
             ended = True
         elif tag == "late" and p is not None:
             raise Violation(f"read_event() after close() returned {p!r} (program {prog})", "read-after-close")
     if not ended:
         raise Violation(f"the consumer never got the end marker after close() (program {prog})", "no-end-marker")
-    by_idx = {r_[3]: r_ for r_ in prog["records"]}
+    by_idx = {r_[3]: tuple(r_[:4]) for r_ in prog["records"]}
     flat = []
     for d in delivered:
         flat += [d[1]] if d[0] == "single" else [d[1], d[2]]
@@ -145,7 +158,7 @@ def check(prog, r, s):
         raise Violation(f"records {dup} were delivered more than once (delivered {delivered}; program {prog})", "duplicate")
     early = prog.get("early_close") is not None
     if not early:
-        missing = sorted(set(recs_i[3] for recs_i in recs.values()) - set(flat))
+        missing = sorted(set(r_[3] for r_ in prog["records"] if r_[0] != "IGNORED") - set(flat))
         if missing:
             raise Violation(f"records {missing} read from the kernel were never handed to the consumer (delivered {delivered}; program {prog})", "lost")
     # order
@@ -168,7 +181,7 @@ def check(prog, r, s):
             if d[2] < inj_t[d[1]] + D - 1e-12:
                 raise Violation(f"unpaired MOVED_FROM e{d[1]} queued at {inj_t[d[1]]} was delivered alone at {d[2]}, before the delay {D} elapsed (program {prog})", "early-single")
             # strict clock: a partner injected strictly before the deadline must have been paired
-            partner = [x for x in prog["records"] if x[0] == "TO" and x[1] == by_idx[d[1]][1] and x[3] > d[1]]
+            partner = [tuple(x[:4]) for x in prog["records"] if x[0] == "TO" and x[1] == by_idx[d[1]][1] and x[3] > d[1]]
             # (only if the partner was read from the kernel at all, i.e. it was handed out too)
             if partner and partner[0][3] in flat and inj_t[partner[0][3]] < inj_t[d[1]] + D - 1e-12 and not prog["think"]:
                 raise Violation(
@@ -194,6 +207,10 @@ def check(prog, r, s):
         cl.append("unpaired-from")
     if prog.get("cuts"):
         cl.append("read-cuts")
+    if any(len(v_) for v_ in [[r_ for r_ in prog["records"] if len(r_) > 4]]):
+        cl.append("identical-record-read-twice")
+    if merged:
+        cl.append("identical-record-merged-by-kernel")
     return split or near or r.preemptions > 0, cl
 
 
@@ -213,6 +230,8 @@ FIXED = [
     {"records": [R("FROM", 1, False, 0), R("TO", 1, False, 1)], "batches": [(0.0, 1), (D, 1)], "think": 0, "cuts": None},
     {"records": [R("FROM", 1, True, 0), R("MODIFY", 0, False, 1), R("TO", 1, True, 2)], "batches": [(0.0, 2), (D, 1)], "think": 0, "cuts": None},
     {"records": [R("CREATE", 0, False, 0), R("SELFROOT", 0, True, 1), R("SELFSUB", 0, True, 2)], "batches": [(0.0, 2), (0.0, 1)], "think": 0, "cuts": [1]},
+    # the same record twice (two writes to one file), in one read and across reads, while the consumer waits on a MOVED_FROM
+    {"records": [R("FROM", 1, False, 0), R("MODIFY", 0, False, 1), ("MODIFY", 0, False, 2, 1), ("MODIFY", 0, False, 3, 1)], "batches": [(0.0, 3), (D / 2, 1)], "think": 0, "cuts": None},
 ]
 
 
@@ -251,6 +270,12 @@ def programs(draw):
                 kind, selfs["root"] = "SELFROOT", True
             elif not selfs["sub"] and not ignored:
                 kind, selfs["sub"] = "SELFSUB", True
+        prev_plain = [r_ for r_ in recs if r_[0] in ("MODIFY", "CREATE", "DELETE") and len(r_) == 4]
+        if kind in ("MODIFY", "CREATE", "DELETE") and prev_plain and draw(st.integers(0, 3)) == 0:
+            # the very same record once more (same mask, same name), as the kernel queues it for a repeated change
+            o = prev_plain[-1]
+            recs.append((o[0], 0, o[2], i, o[3]))
+            continue
         recs.append(R(kind, cookie, draw(st.booleans()), i))
     batches = []
     left = n
